@@ -358,10 +358,23 @@ func c19Cases(svcs []c19Svc, thorough bool) []c19Case {
 				if a != b {
 					out = append(out, c19Case{Kind: "selectors", Service: s.full, Selectors: []string{a, b}})
 				}
+				if thorough && a < b {
+					for _, c := range sels {
+						if c != a && c != b {
+							// c before, between and after an (unordered) pair: every ordering class of three
+							out = append(out, c19Case{Kind: "selectors", Service: s.full, Selectors: []string{a, b, c}},
+								c19Case{Kind: "selectors", Service: s.full, Selectors: []string{c, a, b}})
+						}
+					}
+				}
 			}
 		}
 	}
-	for _, t := range enumTemplates(smallAlphabet, 2) {
+	maxSeg := 2
+	if thorough {
+		maxSeg = 3
+	}
+	for _, t := range enumTemplates(smallAlphabet, maxSeg) {
 		for _, k := range []string{"get", "post", "*"} {
 			r := c01Rule{0, k, t.String()}
 			out = append(out, c19Case{Kind: "equivalence", Rule: &r})
@@ -382,7 +395,7 @@ func c19Cases(svcs []c19Svc, thorough bool) []c19Case {
 
 func runC19(c *Ctx) {
 	r := c.Run
-	r.Rule("selector lists of length <= 2 over {every component prefix of a.S.M, a.Sx.M, a.b.S.M, ab.S.M, a.D.M, a.D.Mx and unrelated names, each plain and with '.*'; '*'; case variants; a wildcard below a method} × each of 7 services (packages a, a.b, ab; services S, Sx, D) registered alone on a fresh mux, every selector with its own path; equivalence of service-config and annotation binding for every template of the reduced alphabet × kinds × body selectors over the near-miss probe set; healthz for service names × serving statuses over GET (both routes) and WebSocket watch; distinct = (kind, service, selector set / rule / health case)")
+	r.Rule("selector lists of length <= 2 (thorough: <= 3) over {every component prefix of a.S.M, a.Sx.M, a.b.S.M, ab.S.M, a.D.M, a.D.Mx and unrelated names, each plain and with '.*'; '*'; case variants; a wildcard below a method} × each of 7 services (packages a, a.b, ab; services S, Sx, D) registered alone on a fresh mux, every selector with its own path; equivalence of service-config and annotation binding for every template of the reduced alphabet (<= 2 segments, thorough <= 3) × kinds × body selectors over the near-miss probe set; healthz for service names × serving statuses over GET (both routes) and WebSocket watch; distinct = (kind, service, selector set / rule / health case)")
 	r.Assume("selector lists under which one path would be bound to two methods of the registered service are skipped (a conflict by construction)", "invalid selectors ('*' not last) are not explored")
 	svcs := c19Services()
 	cases := c19Cases(svcs, c.Thorough())
